@@ -19,6 +19,11 @@ type T struct {
 	l, r *T
 }
 
+// wsTokens are keyword tokens of field fk that differ from the plain ones only by outer whitespace (significant inside a
+// quoted value), or that are numbers only after trimming; each is posted on the documents of the atom given here - a
+// DIFFERENT atom than the trimmed value's, so that trimming a bound or a literal changes the selected documents.
+var wsTokens = map[string]int{" v0": 1, " v1": 0, "v0 ": 1, "v1 ": 0, "\tv0\t": 1, " 5": 0, "5": 1, "5 ": 0}
+
 const starLeaf = 1000000 // leaf id of the `*` query (SV.Parser.tokSeqQL.star)
 
 func leaf(n int) *T           { return &T{op: 'a', n: n} }
@@ -134,6 +139,9 @@ func leafID(tok parser.Token) (int, error) {
 		data = v.From.Data
 	default:
 		return 0, fmt.Errorf("unknown leaf %T", tok)
+	}
+	if a, ok := wsTokens[data]; ok {
+		return a, nil
 	}
 	if len(data) < 2 || (data[0] != 'v' && data[0] != 'V') {
 		return 0, fmt.Errorf("leaf value %q", data)
